@@ -138,12 +138,15 @@ def _grid_rank(ctx, c):
                dtype=np.complex128 if c["complex"] else float)
     df = DensityFinder(6, f.getSpline(3), eta, consts)
     out = {}
-    out["init_pert"] = None
+    stale = (7.5 - 3.25j) if c["complex"] else 7.5         # whatever the grid held before must not survive
+    rho.getAllData()[:] = stale
     df.getPerturbedRho(f, rho)                 # of the initial condition
     out["init_pert"] = sim.piece(rho)
     sim.fill(f, F)
+    rho.getAllData()[:] = stale
     df.getPerturbedRho(f, rho)
     out["pert"] = sim.piece(rho)
+    rho.getAllData()[:] = stale
     df.getRho(f, rho)
     out["full"] = sim.piece(rho)
     return out
